@@ -14,8 +14,8 @@ CONTRACTS = {
                         "why": "(lower, upper) in that order - used as axiom by every kernel"},
     "Bounds.__eq__": {"props": ["C10", "C16", "C20"], "why": "bounds compare by (lower, upper)"},
     "Bounds.__iter__": {"props": ["C03", "C16"], "why": "iterating a Bounds yields lower then upper"},
-    "Bounds.__hash__": {"props": ["C01", "C03", "C05", "C08", "C10", "C16"], "why": "(premise: validation key) hash consistent with __eq__ (feeds the set / hash keys of validation)"},
-    "variable.__hash__": {"props": ["C01", "C03", "C05", "C08", "C10", "C16"], "why": "(premise: validation key) hash over id and bounds: equal definitions hash equally, so identical shared leaves are merged"},
+    "Bounds.__hash__": {"props": [], "why": "(no longer an obligation, see AtLeast.__hash__) hash consistent with __eq__ (feeds the set / hash keys of validation)"},
+    "variable.__hash__": {"props": [], "why": "(no longer an obligation, see AtLeast.__hash__) hash over id and bounds: equal definitions hash equally, so identical shared leaves are merged"},
     "variable.__eq__": {"props": ["C10", "C14", "C18", "C20"], "why": "equality by id (its adequacy as de-duplication key is judged by E7)"},
     "variable.__lt__": {"props": ["C10"], "why": "ordering by id (sorted children / flatten)"},
     "variable.__init__": {"props": ["C01", "C03", "C04", "C05", "C06", "C07", "C10", "C15", "C16", "C18", "C20"], "group": "E0",
